@@ -11,6 +11,13 @@ def configs(tier):
             out.append(ivp.Cfg(layout, "none", "filter", lin, q=1, d=1))
             out.append(ivp.Cfg(layout, "none", "filter", lin, q=2, d=2))
             out.append(ivp.Cfg(layout, "none", "filter", lin, q=2, d=1, order=2))
+    for layout in ("dense", "isotropic", "blockdiag"):
+        out.append(ivp.Cfg(layout, "mle", "filter", "ts0", q=1, d=2))
+        out.append(ivp.Cfg(layout, "mle", "filter", "ts1", q=2, d=1))
+        out.append(ivp.Cfg(layout, "dynamic", "filter", "ts0", q=1, d=2))
+        out.append(ivp.Cfg(layout, "dynamic", "filter", "ts1", q=2, d=1, relin=True))
+        out.append(ivp.Cfg(layout, "none", "fixedinterval", "ts0", q=1, d=2))
+        out.append(ivp.Cfg(layout, "none", "fixedpoint", "ts1", q=1, d=1))
     return out
 
 
